@@ -72,9 +72,11 @@ CLAIMS = {
                 "that invariant); Literal::index_strings stores that index; check_locales_inner gives every locale a table "
                 "matching the indices of its literals and records its length; and "
                 "that the build helper's writer emits, for every Unicode text, a JSON array of string literals whose "
-                "RFC 8259 decoding is the text (lemma junesc(jesc(s)) == s for all sequences of chars).",
+                "RFC 8259 decoding is the text (lemma junesc(jesc(s)) == s for all sequences of chars) and which, as a "
+                "whole, parses with a positional RFC 8259 scanner as an array of exactly the table's strings "
+                "(postcondition `jarray(r@) == Some(views(self.strings@))` of TranslationsFormatter::to_json).",
         "note": "Assumed: four std facts vstd leaves open (String::from view, String view injective, HashMap<String,_> "
-                "lookup by &str); R2 Rc<str> -> String; the 15-line spec decoder equals real JSON decoding; the contract "
+                "lookup by &str); R2 Rc<str> -> String; the spec decoder / scanner (`junesc`, `jscan`, `jarray`, ~60 lines written from RFC 8259) equal real JSON decoding; the contract "
                 "assumed for the traversals make_builder_keys / merge (`lits_ok`). Not covered: "
                 "ParsedValue::index_strings traversal, string counts, index_translations::<N, I>, StringArray::cast.",
         "design_ref": "DESIGN.md section 3, C11",
